@@ -761,6 +761,10 @@ class Builder:
             f = call["f"]
             if f.get("q") and not f.get("dep"):
                 cands = list(db.by_q.get(f["q"], []))
+                if not cands and astx.is_this(recv) and fr.func.get("record"):
+                    # members of partial specialisations are resolved with canonical parameter names
+                    # (`type-parameter-0-0`) that do not spell the record's name: fall back to the enclosing record
+                    cands = db.methods(fr.func["record"], n)
             elif astx.is_this(recv) and fr.func.get("record"):
                 cands = db.methods(fr.func["record"], n)
             elif f.get("unres"):
